@@ -17,6 +17,10 @@ MODULES = {
     "C06": "p_text",
     "C04": "p_text",
     "C17": "p_text",
+    "C08": "p_tags",
+    "C09": "p_tags",
+    "C16": "p_tags",
+    "C18": "p_tags",
 }
 
 
